@@ -282,6 +282,30 @@ pub fn gen(rng: &mut Rng, depth: u32, nfun: usize, from: Option<usize>) -> Prog 
     }
 }
 
+/// stack-heavy programs: distinct literals pushed and dropped across nested sequence / restore_on_err /
+/// optional / look-ahead scopes that succeed or are forced to fail, so that elements are popped below
+/// one or several snapshot lines before a clear_snapshot or restore (the input plays no role)
+pub fn gen_stack(rng: &mut Rng, depth: u32) -> Prog {
+    use Prog::*;
+    const LITS: [&str; 5] = ["a", "b", "c", "ab", "é"];
+    if depth == 0 || rng.chance(1, 6) {
+        return match rng.weighted(&[8, 9, 1, 1, 1, 1]) {
+            0 => PushLit(LITS[rng.below(5) as usize].to_string()),
+            1 => Drop, 2 => Ok, 3 => Err, 4 => MPeek, _ => Slice(rng.range(0, 3) as i32 - 1, None, rng.chance(1, 2)),
+        };
+    }
+    let sub = |rng: &mut Rng| Box::new(gen_stack(rng, depth - 1));
+    match rng.weighted(&[16, 7, 4, 3, 3, 2, 2]) {
+        0 => { let a = sub(rng); let b = sub(rng); Then(a, b) }
+        1 => Seq(sub(rng)),
+        2 => Roe(sub(rng)),
+        3 => Opt(sub(rng)),
+        4 => Look(rng.chance(1, 2), sub(rng)),
+        5 => { let a = sub(rng); Seq(Box::new(Then(a, Box::new(Err)))) }          // a scope forced to fail at its end
+        _ => { let a = sub(rng); let b = sub(rng); Else(a, b) }
+    }
+}
+
 pub fn gen_input(rng: &mut Rng, maxlen: u64) -> String {
     let n = rng.range(0, maxlen);
     (0..n).map(|_| INPUT_ALPHA[rng.weighted(&[5, 4, 2, 1])]).collect()
